@@ -254,7 +254,9 @@ retry:
 	common.VerifPoint("dispatchConnection:beforeGetSession")
 	sesh, existing, err := user.GetSession(ci.SessionId, seshConfig)
 	if err == errUserRetired {
-		// the user's last session closed after the lookup above: look the user up again
+		// the user's last session closed after the lookup above: the record is being terminated. Wait until it is
+		// out of the panel (a lookup before that would only find it again) and look the user up afresh
+		<-user.gone
 		goto retry
 	}
 	if err != nil {
